@@ -591,6 +591,38 @@ fn group_layer(ctx: &mut Ctx) {
             }
         }
     }
+    // bases that ARE the generator, its negative, or (the negative of) a precomputed-table point, affine and
+    // re-randomised: a "this is G, use the fixed-base table" shortcut keyed on part of the coordinates fires only here
+    {
+        let mut pg = ctx.prng("gen_bases");
+        let mut bi = 0u64;
+        let two = BigUint::from(2u32);
+        let mults: Vec<BigUint> = vec![BigUint::one(), two.clone(), BigUint::from(255u32), BigUint::one() << 8, BigUint::from(3u32) << 64, BigUint::one() << 248];
+        for m in &mults {
+            for negate in [false, true] {
+                for zk in 0..2u64 {
+                    bi += 1;
+                    let sub = pg.next();
+                    if !ctx.mine(bi) {
+                        continue;
+                    }
+                    let mut p = Prng::new(sub, "gb");
+                    let base = r2::mul(m, &r2::g()).unwrap();
+                    let base = if negate { r2::neg(&Some(base)).unwrap() } else { base };
+                    let lam = if zk == 0 { BigUint::one() } else { rand_scalar(&mut p, &c.p) };
+                    let lb = r2::to_lib_point(&base, &lam);
+                    for k in [BigUint::one(), two.clone(), &c.n - 1u32, rand_scalar(&mut p, &c.n), r2::from_b(&p.bytes(32))] {
+                        let lk = lim(&k);
+                        same(ctx, "scalar_mul", "base_is_(negated)_generator_or_table_point", guard(|| lb.scalar_mul(&lk)), &r2::mul(&k, &Some(base.clone())), json!({"P": pt_json(&lb), "k": h(&lk)}));
+                    }
+                    let other = r2::mul(&rand_scalar(&mut p, &c.n), &r2::g()).unwrap();
+                    let lo = r2::to_lib_point(&other, &BigUint::one());
+                    same(ctx, "point_add", "base_is_(negated)_generator_or_table_point", guard(|| lb.point_add(&lo)), &r2::add(&Some(base.clone()), &Some(other.clone())), json!({"P": pt_json(&lb), "Q": pt_json(&lo)}));
+                    same(ctx, "point_dbl", "base_is_(negated)_generator_or_table_point", guard(|| lb.point_dbl()), &r2::dbl(&Some(base.clone())), json!({"P": pt_json(&lb)}));
+                }
+            }
+        }
+    }
     // n + j for every j in 1..=40 and the scalars around every window boundary (the 4-bit window adds a
     // table point to an accumulator; the accumulator equals that table point only for crafted scalars)
     let g_lib = r2::to_lib_point(&r2::g().unwrap(), &BigUint::one());
@@ -616,7 +648,7 @@ pub fn run(ctx: &mut Ctx) {
     for (n, ok) in r2::selftest() {
         ctx.selftest(&n, ok);
     }
-    ctx.require(&["fp_add", "fp_sub", "fp_mul", "fp_sqr", "fp_double", "fp_triple", "fp_neg", "fp_div2", "fp_inv", "fp_pow", "fp_sqrt_residue", "fp_sqrt_nonresidue", "fp_to_mont", "fp_from_mont", "fn_add", "fn_sub", "fn_mul", "fn_pow", "fn_inv", "u256_primitives", "u512_primitives", "fp_mont_mul_carry_out_of_2^512", "fp_mul_product=0", "fp_mul_product=1", "fp_mul_product=m-1", "fn_mul_product_shape", "fp_mul_product_shape", "table_entry", "single_byte_scalar", "P_ne_Q", "P_eq_Q_same_repr", "P_eq_Q_diff_Z", "P_eq_negQ_same_Z", "P_eq_negQ_diff_Z", "infinity_canonical", "infinity_arbitrary_XY", "k=0", "k=n", "k=n+1", "k=n+small", "k=2^256-1", "k=random", "k=sparse_limbs", "k=runs_of_ones", "k=n+j_sweep", "k=n-j_sweep", "consecutive_negated_base", "consecutive_same_point_other_Z", "crafted_stored_Z_limbs", "base_point_with_zero_x", "to_affine_point", "predicates", "predicates_offcurve", "from_byte"]);
+    ctx.require(&["fp_add", "fp_sub", "fp_mul", "fp_sqr", "fp_double", "fp_triple", "fp_neg", "fp_div2", "fp_inv", "fp_pow", "fp_sqrt_residue", "fp_sqrt_nonresidue", "fp_to_mont", "fp_from_mont", "fn_add", "fn_sub", "fn_mul", "fn_pow", "fn_inv", "u256_primitives", "u512_primitives", "fp_mont_mul_carry_out_of_2^512", "fp_mul_product=0", "fp_mul_product=1", "fp_mul_product=m-1", "fn_mul_product_shape", "fp_mul_product_shape", "table_entry", "single_byte_scalar", "P_ne_Q", "P_eq_Q_same_repr", "P_eq_Q_diff_Z", "P_eq_negQ_same_Z", "P_eq_negQ_diff_Z", "infinity_canonical", "infinity_arbitrary_XY", "k=0", "k=n", "k=n+1", "k=n+small", "k=2^256-1", "k=random", "k=sparse_limbs", "k=runs_of_ones", "k=n+j_sweep", "k=n-j_sweep", "consecutive_negated_base", "consecutive_same_point_other_Z", "crafted_stored_Z_limbs", "base_point_with_zero_x", "base_is_(negated)_generator_or_table_point", "to_affine_point", "predicates", "predicates_offcurve", "from_byte"]);
     field_layer(ctx);
     table_layer(ctx);
     group_layer(ctx);
